@@ -90,19 +90,22 @@ CHECKS["C08"] = dict(
     gen=dict(
         quick=[dict(mode="exh", spec="EncryptGen.tla", cfg="EncryptGenRT.cfg", name="roundtrip", max=150),
                dict(mode="sim", spec="EncryptGen.tla", cfg="EncryptGenWalk.cfg", depth=6, num=12, max=80, name="walks"),
-               dict(mode="exh", spec="EncryptGen.tla", cfg="EncryptGenGet.cfg", name="spans", max=350)],
+               dict(mode="exh", spec="EncryptGen.tla", cfg="EncryptGenGet.cfg", name="spans", max=300),
+               dict(mode="exh", spec="EncryptGen.tla", cfg="EncryptGenFile.cfg", name="files")],
         thorough=[dict(mode="py", fn=apalache_lengths, name="apalache"),
                   dict(mode="exh", spec="EncryptGen.tla", cfg="EncryptGenRT.cfg", name="roundtrip"),
                   dict(mode="sim", spec="EncryptGen.tla", cfg="EncryptGenWalk.cfg", depth=8, num=60, max=600, name="walks"),
-                  dict(mode="exh", spec="EncryptGen.tla", cfg="EncryptGenGet.cfg", name="spans")]),
+                  dict(mode="exh", spec="EncryptGen.tla", cfg="EncryptGenGet.cfg", name="spans"),
+                  dict(mode="exh", spec="EncryptGen.tla", cfg="EncryptGenFile.cfg", name="files", env={"VERIF_BIGFILES": 1})]),
     judge=dict(spec="EncryptTrace.tla", cfg="EncryptTrace.cfg"),
     corrupt=_enc_corrupt,
     selftest_scenarios=100000,
-    nontrivial=lambda s: any(o["op"] in ("dec", "get") for o in s["ops"]),
+    nontrivial=lambda s: any(o["op"] in ("dec", "get", "upload") for o in s["ops"]),
     rule="TLC-generated: (a) Encrypt-then-Decrypt for every class of 11 lengths x 3 paddings x 3 keys x 3 initial counters, "
          "(b) -simulate walks over Encrypt/Decrypt/ResetE/ResetD of two cipher objects, (c) one fabricated encrypted chunk per span class "
-         "(base-4096 digits in {0,1,2,4094,4095}, top digit in {0,1,2,510,511}, last-chunk size in 8 classes: 5001 spans; quick samples 350 by seed); "
-         "distinct = distinct (parameters, operation list); non-trivial = contains a Decrypt or a Get",
+         "(base-4096 digits in {0,1,2,4094,4095}, top digit in {0,1,2,510,511}, last-chunk size in 8 classes: 5001 spans; quick samples 300 by seed), "
+         "(d) files of {0,1,2,3,7 (thorough: 33, 64)} full chunks + {0,1,63,4096,CS-1} bytes written by the real encrypted pipeline, every stored chunk read back; "
+         "distinct = distinct (parameters, operation list); non-trivial = contains a Decrypt, a Get or an upload",
     exhaustive=dict(quick=False, thorough=False),
     assumptions=["keccak256 behaves as a random function (two different key streams do not coincide on a payload)",
                  "payload bytes are seeded random; three keys per seed",
@@ -183,5 +186,5 @@ CHECKS["C03"] = dict(
     assumptions=["keccak256 is collision-free on the inputs used (a wrong tree shape changes the digest)",
                  "data bytes are seeded random (never all zero), so padding errors are visible",
                  "each Get is followed by Hash before Put/Reset (the only use in /repo); data never exceeds the capacity",
-                 "a Hash that does not answer within 30 s is recorded as not returning"],
+                 "a Hash that does not answer within 12 s is recorded as not returning"],
 )
